@@ -1322,7 +1322,7 @@ MISS_PROPS = {
     "overlap by one": ["C01", "C02"], "address off alignment by one": ["C01", "C02"], "size one too small": ["C02"],
     "alignment not a power of two": ["C02", "C13"], "packed and align": ["C02"],
     "vfunc index below position": ["C04"], "vftable size below slots": ["C04"],
-    "impl function without address": ["C05"], "extern value without address": ["C15"], "extern type without align": ["C02"],
+    "impl function without address": ["C05"], "unresolvable parameter type": ["C05", "C10"], "unresolvable return type": ["C05", "C10"], "extern value without address": ["C15"], "extern type without align": ["C02"],
     "defaultable without default": ["C08"], "default without defaultable": ["C08"], "two defaults": ["C08"],
     "derived vftable omits the last base slot": ["C06"],
     "derived vftable slot differs from the base's: name": ["C06"], "derived vftable slot differs from the base's: receiver": ["C06"],
